@@ -1,6 +1,644 @@
-//! C23 — not built yet.
-use vcommon::Args;
+//! C23 — D-Bus addresses round-trip through their string form, and parsing percent-decodes.
+//!
+//! Direction 1 (value → string → value): every transport the build offers (unix path / abstract /
+//! dir / tmpdir, unixexec with argv0 and 0..2 arguments, tcp / nonce-tcp with family, bind,
+//! nonce file; with and without guid) with field values over byte strings of bounded length
+//! from a byte-class alphabet, built through the public constructors; `Address::from_str(
+//! &addr.to_string()) == addr`.
+//!
+//! Direction 2 (string → value): every syntactically valid single-entry address string over the
+//! known keys with values made of literal characters and `%xx` escapes; when zbus accepts the
+//! string, every value it reports equals the specification's percent-decoding (refaddr) of the
+//! text. refaddr itself is audited against libdbus's `dbus_parse_address` on the same strings.
+//!
+//! Identity of a failure: (transport, key, value class ∈ {plain, escaped, empty}). Single-field
+//! sweeps establish which (transport, key, class) fail alone; a multi-field failure none of whose
+//! fields fails alone is reported as an interaction.
 
-pub fn main(_args: &Args) -> i32 {
-    vcommon::machinery_failure("C23: check not built yet")
+use std::{
+    collections::BTreeSet,
+    ffi::OsString,
+    os::unix::ffi::{OsStrExt, OsStringExt},
+    path::PathBuf,
+    str::FromStr,
+    sync::Mutex,
+};
+
+use serde_json::{json, Value as J};
+use vcommon::{catch, enumerate, hash64, hex, machinery_failure, par_for, unhex, Args, Report, Tier, Violation};
+use zbus::address::{
+    transport::{Tcp, TcpTransportFamily, Transport, Unix, UnixSocket, Unixexec},
+    Address,
+};
+
+use crate::{refaddr, refmatch::ffi};
+
+const CLAUSE: &str = "address-string-denotes-the-same-endpoint";
+const GUID: &str = "0123456789abcdef0123456789abcdef";
+
+/// Byte classes: unreserved, '%', ',', ':', '=', space, NUL, 0x80, 0xff, '/', ';', '\\'
+const BYTES: &[u8] = &[b'a', b'%', b',', b':', b'=', b' ', 0x00, 0x80, 0xff, b'/', b';', b'\\'];
+
+fn byte_values(max_len: usize) -> Vec<Vec<u8>> {
+    let mut out = vec![];
+    let mut v = vec![];
+    for i in 0..enumerate::count_strings(BYTES.len(), max_len) {
+        enumerate::nth_string(BYTES.len(), i, &mut v);
+        out.push(v.iter().map(|x| BYTES[*x]).collect());
+    }
+    out
+}
+
+fn class_of(v: &[u8]) -> &'static str {
+    if v.is_empty() {
+        "empty"
+    } else if v.iter().all(|b| refaddr::optionally_escaped(*b)) {
+        "plain"
+    } else {
+        "escaped"
+    }
+}
+
+/// Bytes → text for fields that are `String` in the API (host, bind): bytes ≥ 0x80 become the
+/// code point of that value.
+fn as_text(v: &[u8]) -> String {
+    v.iter().map(|b| *b as char).collect()
+}
+
+// ---------------------------------------------------------------------------------------------
+// descriptors
+
+#[derive(Clone, Debug, PartialEq, Eq, Hash)]
+enum TDesc {
+    /// kind: 0 path, 1 abstract, 2 dir, 3 tmpdir
+    Unix { kind: u8, val: Vec<u8> },
+    Exec { path: Vec<u8>, arg0: Option<Vec<u8>>, args: Vec<Vec<u8>> },
+    Tcp { host: String, port: u16, bind: Option<String>, family: Option<u8>, nonce: Option<Vec<u8>> },
+}
+
+#[derive(Clone, Debug, PartialEq, Eq, Hash)]
+struct ADesc {
+    t: TDesc,
+    guid: bool,
+}
+
+const UNIX_KEYS: [&str; 4] = ["path", "abstract", "dir", "tmpdir"];
+
+impl ADesc {
+    fn transport_name(&self) -> &'static str {
+        match &self.t {
+            TDesc::Unix { .. } => "unix",
+            TDesc::Exec { .. } => "unixexec",
+            TDesc::Tcp { .. } => "tcp",
+        }
+    }
+    /// (key family, value bytes) of every value-carrying field present.
+    fn fields(&self) -> Vec<(&'static str, Vec<u8>)> {
+        match &self.t {
+            TDesc::Unix { kind, val } => vec![(UNIX_KEYS[*kind as usize], val.clone())],
+            TDesc::Exec { path, arg0, args } => {
+                let mut f = vec![("path", path.clone())];
+                if let Some(a) = arg0 {
+                    f.push(("argv0", a.clone()));
+                }
+                for a in args {
+                    f.push(("argvN", a.clone()));
+                }
+                f
+            }
+            TDesc::Tcp { host, bind, nonce, .. } => {
+                let mut f = vec![("host", host.as_bytes().to_vec())];
+                if let Some(b) = bind {
+                    f.push(("bind", b.as_bytes().to_vec()));
+                }
+                if let Some(n) = nonce {
+                    f.push(("noncefile", n.clone()));
+                }
+                f
+            }
+        }
+    }
+    fn build(&self) -> Result<Address, String> {
+        let os = |v: &Vec<u8>| OsString::from_vec(v.clone());
+        let t = match &self.t {
+            TDesc::Unix { kind, val } => Transport::Unix(Unix::new(match kind {
+                0 => UnixSocket::File(PathBuf::from(os(val))),
+                1 => UnixSocket::Abstract(os(val)),
+                2 => UnixSocket::Dir(PathBuf::from(os(val))),
+                _ => UnixSocket::TmpDir(PathBuf::from(os(val))),
+            })),
+            TDesc::Exec { path, arg0, args } => Transport::Unixexec(Unixexec::new(
+                PathBuf::from(os(path)),
+                arg0.as_ref().map(os),
+                args.iter().map(os).collect(),
+            )),
+            TDesc::Tcp { host, port, bind, family, nonce } => Transport::Tcp(
+                Tcp::new(host, *port)
+                    .set_bind(bind.clone())
+                    .set_family(family.map(|f| if f == 4 { TcpTransportFamily::Ipv4 } else { TcpTransportFamily::Ipv6 }))
+                    .set_nonce_file(nonce.clone()),
+            ),
+        };
+        let a = Address::new(t);
+        if self.guid {
+            let g = zbus::Guid::try_from(GUID).map_err(|e| e.to_string())?;
+            a.set_guid(g).map_err(|e: zbus::Error| e.to_string())
+        } else {
+            Ok(a)
+        }
+    }
+    fn to_json(&self) -> J {
+        let t = match &self.t {
+            TDesc::Unix { kind, val } => json!({"unix": UNIX_KEYS[*kind as usize], "value_hex": hex(val)}),
+            TDesc::Exec { path, arg0, args } => json!({"unixexec": {"path_hex": hex(path), "argv0_hex": arg0.as_ref().map(|a| hex(a)),
+                "args_hex": args.iter().map(|a| hex(a)).collect::<Vec<_>>()}}),
+            TDesc::Tcp { host, port, bind, family, nonce } => json!({"tcp": {"host": host, "port": port, "bind": bind, "family": family,
+                "noncefile_hex": nonce.as_ref().map(|n| hex(n))}}),
+        };
+        json!({"transport": t, "guid": self.guid})
+    }
+    fn from_json(v: &J) -> Option<ADesc> {
+        let t = &v["transport"];
+        let td = if let Some(k) = t["unix"].as_str() {
+            TDesc::Unix {
+                kind: UNIX_KEYS.iter().position(|x| *x == k)? as u8,
+                val: unhex(t["value_hex"].as_str()?),
+            }
+        } else if t["unixexec"].is_object() {
+            let e = &t["unixexec"];
+            TDesc::Exec {
+                path: unhex(e["path_hex"].as_str()?),
+                arg0: e["argv0_hex"].as_str().map(unhex),
+                args: e["args_hex"].as_array()?.iter().filter_map(|a| a.as_str().map(unhex)).collect(),
+            }
+        } else {
+            let e = &t["tcp"];
+            TDesc::Tcp {
+                host: e["host"].as_str()?.to_string(),
+                port: e["port"].as_u64()? as u16,
+                bind: e["bind"].as_str().map(String::from),
+                family: e["family"].as_u64().map(|f| f as u8),
+                nonce: e["noncefile_hex"].as_str().map(unhex),
+            }
+        };
+        Some(ADesc {
+            t: td,
+            guid: v["guid"].as_bool().unwrap_or(false),
+        })
+    }
+}
+
+#[derive(Clone, Debug, PartialEq, Eq)]
+enum Back {
+    Same,
+    Different(String),
+    Error(String),
+    Panic(String),
+}
+
+impl Back {
+    fn class(&self) -> &'static str {
+        match self {
+            Back::Same => "same-address",
+            Back::Different(_) => "different-address",
+            Back::Error(_) => "parse-error",
+            Back::Panic(_) => "panic",
+        }
+    }
+}
+
+fn round_trip(d: &ADesc) -> (String, Back) {
+    let a = d
+        .build()
+        .unwrap_or_else(|e| machinery_failure(&format!("C23: cannot construct {}: {e}", d.to_json())));
+    let text = match catch(|| a.to_string()) {
+        Ok(t) => t,
+        Err(p) => return (String::new(), Back::Panic(format!("Display: {p}"))),
+    };
+    let back = match catch(|| Address::from_str(&text)) {
+        Ok(Ok(b)) if b == a => Back::Same,
+        Ok(Ok(b)) => Back::Different(format!("{b:?}")),
+        Ok(Err(e)) => Back::Error(e.to_string()),
+        Err(p) => Back::Panic(p),
+    };
+    (text, back)
+}
+
+type FailSet = BTreeSet<(String, String, String)>;
+
+fn violation_rt(d: &ADesc, key: &str, val: &[u8], text: &str, back: &Back, kind: &str) -> Violation {
+    let what = match back {
+        Back::Same => unreachable!(),
+        Back::Different(b) => format!("parses as a different address: {b}"),
+        Back::Error(e) => format!("does not parse: {e}"),
+        Back::Panic(p) => format!("panics: {p}"),
+    };
+    Violation::new(
+        CLAUSE,
+        format!("{} is formatted as `{text}`, which {what}", d.to_json()),
+        json!({"address": d.to_json()}),
+    )
+    .feat("direction", "format-then-parse")
+    .feat("kind", kind)
+    .feat("transport", d.transport_name())
+    .feat("key", key)
+    .feat("value_class", class_of(val))
+    .feat("outcome", back.class())
+}
+
+fn plain_exec() -> TDesc {
+    TDesc::Exec { path: b"/x".to_vec(), arg0: None, args: vec![] }
+}
+fn plain_tcp() -> TDesc {
+    TDesc::Tcp { host: "h".into(), port: 1, bind: None, family: None, nonce: None }
+}
+
+/// Single-field sweeps: one field takes every value, the others are plain.
+fn singles(values: &[Vec<u8>]) -> Vec<(ADesc, &'static str, Vec<u8>)> {
+    let mut out = vec![];
+    for v in values {
+        for guid in [false, true] {
+            for kind in 0..4u8 {
+                out.push((ADesc { t: TDesc::Unix { kind, val: v.clone() }, guid }, UNIX_KEYS[kind as usize], v.clone()));
+            }
+        }
+        out.push((ADesc { t: TDesc::Exec { path: v.clone(), arg0: None, args: vec![] }, guid: false }, "path", v.clone()));
+        out.push((ADesc { t: TDesc::Exec { path: b"/x".to_vec(), arg0: Some(v.clone()), args: vec![] }, guid: false }, "argv0", v.clone()));
+        out.push((ADesc { t: TDesc::Exec { path: b"/x".to_vec(), arg0: None, args: vec![v.clone()] }, guid: false }, "argvN", v.clone()));
+        out.push((
+            ADesc { t: TDesc::Exec { path: b"/x".to_vec(), arg0: None, args: vec![b"p".to_vec(), v.clone()] }, guid: false },
+            "argvN",
+            v.clone(),
+        ));
+        let text = as_text(v);
+        let tb = text.as_bytes().to_vec();
+        out.push((ADesc { t: TDesc::Tcp { host: text.clone(), port: 1, bind: None, family: None, nonce: None }, guid: false }, "host", tb.clone()));
+        out.push((
+            ADesc { t: TDesc::Tcp { host: "h".into(), port: 1, bind: Some(text.clone()), family: None, nonce: None }, guid: false },
+            "bind",
+            tb,
+        ));
+        out.push((
+            ADesc { t: TDesc::Tcp { host: "h".into(), port: 1, bind: None, family: None, nonce: Some(v.clone()) }, guid: false },
+            "noncefile",
+            v.clone(),
+        ));
+    }
+    let _ = (plain_exec(), plain_tcp());
+    out
+}
+
+/// Presence-subset products with short values.
+fn products(short: &[Vec<u8>]) -> Vec<ADesc> {
+    let mut out = vec![];
+    let opt = |vals: &[Vec<u8>]| -> Vec<Option<Vec<u8>>> {
+        let mut o = vec![None];
+        o.extend(vals.iter().cloned().map(Some));
+        o
+    };
+    // unixexec: path x argv0 presence x 0..2 args
+    let mut argvs: Vec<Vec<Vec<u8>>> = vec![vec![]];
+    for a in short {
+        argvs.push(vec![a.clone()]);
+    }
+    for a in short {
+        for b in short {
+            argvs.push(vec![a.clone(), b.clone()]);
+        }
+    }
+    for path in short {
+        for arg0 in opt(short) {
+            for args in &argvs {
+                for guid in [false, true] {
+                    if guid && !(args.len() == 2) {
+                        continue;
+                    }
+                    out.push(ADesc { t: TDesc::Exec { path: path.clone(), arg0: arg0.clone(), args: args.clone() }, guid });
+                }
+            }
+        }
+    }
+    // tcp: host x port x bind presence x family x noncefile presence
+    for host in short {
+        for port in [0u16, 1, 65535] {
+            for bind in opt(short) {
+                for family in [None, Some(4u8), Some(6u8)] {
+                    for nonce in opt(short) {
+                        out.push(ADesc {
+                            t: TDesc::Tcp {
+                                host: as_text(host),
+                                port,
+                                bind: bind.as_ref().map(|b| as_text(b)),
+                                family,
+                                nonce: nonce.clone(),
+                            },
+                            guid: port == 1 && family.is_none(),
+                        });
+                    }
+                }
+            }
+        }
+    }
+    out
+}
+
+fn direction1(report: &Report, tier: Tier) {
+    let values = byte_values(tier.pick(2, 3));
+    let short = byte_values(1);
+    report.set("byte_values", json!(values.len()));
+    let fails: Mutex<FailSet> = Mutex::new(BTreeSet::new());
+    let singles = singles(&values);
+    par_for(singles.len(), 64, |i| {
+        let (d, key, val) = &singles[i];
+        let (text, back) = round_trip(d);
+        report.eval(1);
+        report.nontrivial(hash64(&("rt", d)));
+        report.outcome(&format!("format-then-parse: {}", back.class()));
+        if i % (singles.len() / 6 + 1) == 3 {
+            report.sample(json!({"address": d.to_json(), "display": text, "read_back": back.class()}));
+        }
+        if back != Back::Same {
+            fails
+                .lock()
+                .unwrap()
+                .insert((d.transport_name().to_string(), key.to_string(), class_of(val).to_string()));
+            report.violation(violation_rt(d, key, val, &text, &back, "single-field"));
+        }
+    });
+    let fails = fails.into_inner().unwrap();
+    report.set(
+        "format_then_parse_failing_field_classes",
+        json!(fails.iter().map(|(t, k, c)| format!("{t}:{k}:{c}")).collect::<Vec<_>>()),
+    );
+    let prods = products(&short);
+    report.set("presence_products", json!(prods.len()));
+    par_for(prods.len(), 64, |i| {
+        let d = &prods[i];
+        let (text, back) = round_trip(d);
+        report.eval(1);
+        report.nontrivial(hash64(&("rt", d)));
+        report.outcome(&format!("format-then-parse: {}", back.class()));
+        if back == Back::Same {
+            return;
+        }
+        let explained = d
+            .fields()
+            .iter()
+            .any(|(k, v)| fails.contains(&(d.transport_name().to_string(), k.to_string(), class_of(v).to_string())));
+        if explained {
+            report.add("product_failures_explained_by_single_field_findings", 1);
+            return;
+        }
+        let keys: Vec<&str> = d.fields().iter().map(|(k, _)| *k).collect();
+        report.violation(violation_rt(d, &keys.join("+"), b"a", &text, &back, "field-interaction"));
+    });
+}
+
+// ---------------------------------------------------------------------------------------------
+// Direction 2: strings
+
+const ATOMS: &[&str] = &[
+    "a", "/", ".", "\\", "*", "-", "_", "7", "%41", "%25", "%2c", "%2C", "%3a", "%3d", "%20", "%00", "%80", "%ff", "%fF", "%2f", "%3b",
+];
+
+fn atom_values(max_len: usize) -> Vec<String> {
+    let mut out = vec![];
+    let mut v = vec![];
+    for i in 1..enumerate::count_strings(ATOMS.len(), max_len) {
+        enumerate::nth_string(ATOMS.len(), i, &mut v);
+        out.push(v.iter().map(|x| ATOMS[*x]).collect::<String>());
+    }
+    out
+}
+
+/// (address string, keys whose values are under test)
+fn address_strings(tier: Tier) -> Vec<(String, Vec<&'static str>)> {
+    let one = atom_values(tier.pick(2, 3));
+    let two = atom_values(tier.pick(1, 2));
+    let mut out = vec![];
+    for v in &one {
+        for k in UNIX_KEYS {
+            out.push((format!("unix:{k}={v}"), vec![k]));
+        }
+        out.push((format!("unix:path={v},guid={GUID}"), vec!["path"]));
+        out.push((format!("unixexec:path={v}"), vec!["path"]));
+        out.push((format!("tcp:host={v},port=1"), vec!["host"]));
+        out.push((format!("tcp:host=h,port=1,noncefile={v}"), vec!["noncefile"]));
+        out.push((format!("nonce-tcp:host=h,port=1,family=ipv4,noncefile={v}"), vec!["noncefile"]));
+    }
+    for v1 in &two {
+        for v2 in &two {
+            out.push((format!("unixexec:path={v1},argv0={v2}"), vec!["path", "argv0"]));
+            out.push((format!("unixexec:path={v1},argv1={v2}"), vec!["path", "argv1"]));
+            out.push((format!("unixexec:argv2={v2},argv1={v1},path=x"), vec!["argv1", "argv2"]));
+            out.push((format!("nonce-tcp:noncefile={v1},host={v2},port=65535"), vec!["noncefile", "host"]));
+        }
+    }
+    out
+}
+
+/// What zbus reports for `key` after parsing, as bytes.
+fn zbus_value(a: &Address, key: &str) -> Option<Vec<u8>> {
+    match a.transport() {
+        Transport::Unix(u) => match (u.path(), key) {
+            (UnixSocket::File(p), "path") | (UnixSocket::Dir(p), "dir") | (UnixSocket::TmpDir(p), "tmpdir") => {
+                Some(p.as_os_str().as_bytes().to_vec())
+            }
+            (UnixSocket::Abstract(n), "abstract") => Some(n.as_bytes().to_vec()),
+            _ => None,
+        },
+        Transport::Unixexec(e) => match key {
+            "path" => Some(e.path().as_os_str().as_bytes().to_vec()),
+            "argv0" => e.arg0().map(|a| a.as_bytes().to_vec()),
+            k if k.starts_with("argv") => {
+                let n: usize = k[4..].parse().ok()?;
+                e.args().get(n.checked_sub(1)?).map(|a| a.as_bytes().to_vec())
+            }
+            _ => None,
+        },
+        Transport::Tcp(t) => match key {
+            "host" => Some(t.host().as_bytes().to_vec()),
+            "bind" => t.bind().map(|b| b.as_bytes().to_vec()),
+            "noncefile" => t.nonce_file().map(|n| n.to_vec()),
+            _ => None,
+        },
+        _ => None,
+    }
+}
+
+fn key_family(k: &str) -> &str {
+    if k.starts_with("argv") && k != "argv0" {
+        "argvN"
+    } else {
+        k
+    }
+}
+
+fn direction2(report: &Report, tier: Tier, lib: Option<&ffi::Lib>) {
+    let strings = address_strings(tier);
+    report.set("address_strings", json!(strings.len()));
+    let audited = std::sync::atomic::AtomicU64::new(0);
+    par_for(strings.len(), 64, |i| {
+        let (s, keys) = &strings[i];
+        let want = refaddr::parse_entry(s)
+            .unwrap_or_else(|e| machinery_failure(&format!("C23: generated address {s:?} is not valid for the reference grammar: {e}")));
+        // audit of the reference decoder against libdbus (NUL cannot be observed through a C string)
+        if let Some(lib) = lib {
+            if !s.contains("%00") {
+                match refaddr::libdbus_parse(lib, s, keys) {
+                    Ok((method, vals)) => {
+                        for (k, v) in keys.iter().zip(vals) {
+                            if method != want.transport || v.as_deref() != want.get(k) {
+                                machinery_failure(&format!(
+                                    "C23 audit: refaddr and libdbus disagree on {s:?} key {k}: refaddr {:?}, libdbus {:?}",
+                                    want.get(k),
+                                    v
+                                ));
+                            }
+                        }
+                        audited.fetch_add(1, std::sync::atomic::Ordering::Relaxed);
+                    }
+                    Err(e) => machinery_failure(&format!("C23 audit: libdbus rejects {s:?} ({e}) which refaddr accepts")),
+                }
+            }
+        }
+        report.eval(1);
+        let got = match catch(|| Address::from_str(s)) {
+            Ok(Ok(a)) => a,
+            Ok(Err(_)) => {
+                report.outcome("parse-string: valid address string rejected by zbus (not judged)");
+                return;
+            }
+            Err(p) => {
+                report.outcome("parse-string: panic");
+                report.violation(
+                    Violation::new(CLAUSE, format!("Address::from_str({s:?}) panics: {p}"), json!({"string": s}))
+                        .feat("direction", "parse-string")
+                        .feat("outcome", "panic"),
+                );
+                return;
+            }
+        };
+        report.nontrivial(hash64(&("str", s)));
+        let mut all_ok = true;
+        for k in keys {
+            let w = want.get(k).unwrap_or(&[]);
+            if *k == "host" && std::str::from_utf8(w).is_err() {
+                report.outcome("parse-string: decoded host is not UTF-8 (not judged)");
+                continue;
+            }
+            let g = zbus_value(&got, k);
+            if g.as_deref() == Some(w) {
+                continue;
+            }
+            all_ok = false;
+            let raw = s
+                .split([':', ','])
+                .find_map(|kv| kv.strip_prefix(&format!("{k}=")))
+                .unwrap_or("");
+            report.violation(
+                Violation::new(
+                    CLAUSE,
+                    format!(
+                        "{s:?}: the value of {k} denotes the bytes {:?} (percent-decoded), zbus reports {:?}",
+                        String::from_utf8_lossy(w),
+                        g.as_ref().map(|g| String::from_utf8_lossy(g).into_owned())
+                    ),
+                    json!({"string": s, "key": k}),
+                )
+                .feat("direction", "parse-string")
+                .feat("kind", "single-field")
+                .feat("transport", match want.transport.as_str() {
+                    "nonce-tcp" => "tcp",
+                    t => t,
+                })
+                .feat("key", key_family(k))
+                .feat("value_class", if raw.contains('%') { "escaped" } else { "plain" })
+                .feat("outcome", if g.as_deref() == Some(raw.as_bytes()) { "raw-text-not-decoded" } else { "other-value" }),
+            );
+        }
+        report.outcome(if all_ok {
+            "parse-string: values equal the percent-decoding"
+        } else {
+            "parse-string: some value differs from the percent-decoding"
+        });
+        if i % (strings.len() / 5 + 1) == 11 {
+            report.sample(json!({"string": s, "keys": keys, "decoded": keys.iter().map(|k| want.get(k).map(|v| String::from_utf8_lossy(v).into_owned())).collect::<Vec<_>>(),
+                "zbus": keys.iter().map(|k| zbus_value(&got, k).map(|v| String::from_utf8_lossy(&v).into_owned())).collect::<Vec<_>>()}));
+        }
+    });
+    if lib.is_some() {
+        report.set("audit_refaddr_vs_libdbus_strings", json!(audited.into_inner()));
+        report.assume("refaddr percent-decoding agrees with libdbus dbus_parse_address on every enumerated string without %00");
+    }
+}
+
+// ---------------------------------------------------------------------------------------------
+
+fn replay(path: &str) -> i32 {
+    let v = vcommon::load_replay(path);
+    let r = &v["replay"];
+    if let Some(s) = r["string"].as_str() {
+        println!("string: {s:?}");
+        match refaddr::parse_entry(s) {
+            Ok(e) => {
+                for (k, val) in &e.kv {
+                    println!("  reference: {k} = {:?} (hex {})", String::from_utf8_lossy(val), hex(val));
+                }
+                match catch(|| Address::from_str(s)) {
+                    Ok(Ok(a)) => {
+                        println!("zbus: {a:?}");
+                        let mut bad = 0;
+                        for (k, val) in &e.kv {
+                            if let Some(g) = zbus_value(&a, k) {
+                                let ok = g == *val;
+                                println!("  zbus: {k} = {:?} {}", String::from_utf8_lossy(&g), if ok { "EQUAL" } else { "DIFFERENT" });
+                                if !ok {
+                                    bad = 1;
+                                }
+                            }
+                        }
+                        return bad;
+                    }
+                    other => println!("zbus: {other:?}"),
+                }
+            }
+            Err(e) => println!("reference grammar rejects: {e}"),
+        }
+        return 0;
+    }
+    let Some(d) = ADesc::from_json(&r["address"]) else {
+        machinery_failure("C23 replay: unreadable payload");
+    };
+    let (text, back) = round_trip(&d);
+    println!("address: {}", d.to_json());
+    println!("Display: {text}");
+    println!("Address::from_str(Display): {back:?}");
+    (back != Back::Same) as i32
+}
+
+pub fn main(args: &Args) -> i32 {
+    if let Some(p) = &args.replay {
+        return replay(p);
+    }
+    let report = Report::new("C23", args.tier, args.seed, "exploration");
+    let lib = match ffi::Lib::load() {
+        Ok(l) => Some(l),
+        Err(e) => {
+            if args.tier == Tier::Thorough {
+                machinery_failure(&format!("C23 audit: {e}"));
+            }
+            report.note(format!("libdbus not loadable, refaddr audit skipped in the quick tier: {e}"));
+            None
+        }
+    };
+    direction1(&report, args.tier);
+    direction2(&report, args.tier, lib.as_ref());
+    report.note("transports in this build: unix (path/abstract/dir/tmpdir), unixexec, tcp/nonce-tcp. vsock needs the `vsock`/`tokio-vsock` cargo feature, which the harness crate does not enable; autolaunch and launchd are not compiled on Linux");
+    report.assume("the reference grammar and percent-decoding are those of the specification's Server Addresses section (refaddr), audited against libdbus");
+    report.assume("a String-typed field (host, bind) stands for its UTF-8 bytes");
+    report.finish(
+        "direction 1: every transport x single-field sweeps over all byte strings of bounded length from the byte-class alphabet (others plain) + presence-subset products with values of length <= 1, built with the public constructors, Display then from_str; direction 2: every valid single-entry address string over the known keys with values of bounded length over literal characters and %xx escapes. non-trivial = distinct address values / distinct accepted strings",
+        true,
+    )
 }
